@@ -828,3 +828,9 @@ NATIVE_BUDGET = {"quick": 150, "thorough": 2000}
 NOT_COVERED = []
 EXPLANATION = ""
 ASSUMPTIONS = []
+
+
+# effect obligations (AST, complete for what they state): no memoising decorator, no module-level state - see specs/common.py
+from .common import no_hidden_state_check as _no_hidden_state_check  # noqa: E402
+EXTRA_CHECKS = list(globals().get("EXTRA_CHECKS", [])) + [_no_hidden_state_check(
+    ["pydsdl._data_type_builder", "pydsdl._dsdl_definition"], "reference resolution")]
